@@ -286,6 +286,10 @@ enum ROp {
     Seek(W),
     Count,
     Hint,
+    /// `iter_shapes_as::<S>().skip(k).take(j)`, collected
+    SkipTake(W, W),
+    /// `read_as::<S>()` (`read()` for the generic reader): consumes the reader, so it ends the history
+    ReadAll,
 }
 
 fn render_item<S: Into<Shape>>(r: Result<S, Error>, out: &mut Vec<W>) {
@@ -302,13 +306,39 @@ fn render_item<S: Into<Shape>>(r: Result<S, Error>, out: &mut Vec<W>) {
 }
 
 fn run_rops<S: ReadableShape + Into<Shape>>(
-    reader: &mut ShapeReader<Source>,
+    mut reader: ShapeReader<Source>,
     ops: &[ROp],
     cap: usize,
     out: &mut Vec<W>,
 ) {
     for op in ops {
         match op {
+            ROp::SkipTake(k, j) => {
+                let items: Vec<_> = reader
+                    .iter_shapes_as::<S>()
+                    .skip(*k as usize)
+                    .take(*j as usize)
+                    .collect();
+                out.push(items.len() as W);
+                for r in items {
+                    render_item(r, out);
+                }
+            }
+            ROp::ReadAll => {
+                match reader.read_as::<S>() {
+                    Ok(v) => {
+                        out.extend([0, v.len() as W]);
+                        for s in v {
+                            render_shape(&s.into(), out);
+                        }
+                    }
+                    Err(e) => {
+                        out.push(1);
+                        render_error(&e, out);
+                    }
+                }
+                return;
+            }
             ROp::Iter(j) => {
                 let limit = if *j < 0 { cap } else { cap.min(*j as usize) };
                 let mut items = vec![];
@@ -379,10 +409,16 @@ fn case_read(c: &mut Cur) -> Result<Vec<W>, BadCase> {
             2 => ROp::Seek(c.next()?),
             3 => ROp::Count,
             4 => ROp::Hint,
+            5 => ROp::SkipTake(c.n()? as W, c.n()? as W),
+            6 => ROp::ReadAll,
             _ => return Err(BadCase),
         });
     }
     if !c.at_end() {
+        return Err(BadCase);
+    }
+    // read_as consumes the reader: only as the last call
+    if ops.iter().rev().skip(1).any(|o| matches!(o, ROp::ReadAll)) {
         return Err(BadCase);
     }
     let cap = shp.len() / 12 + shx.len() / 8 + 2;
@@ -403,7 +439,7 @@ fn case_read(c: &mut Cur) -> Result<Vec<W>, BadCase> {
                 out.push(1);
                 render_error(&e, &mut out);
             }
-            Ok(mut reader) => {
+            Ok(reader) => {
                 out.push(0);
                 let h = *reader.header();
                 out.extend([h.file_length as W, h.shape_type as i32 as W, h.version as W]);
@@ -412,20 +448,20 @@ fn case_read(c: &mut Cur) -> Result<Vec<W>, BadCase> {
                     fb(h.bbox.min.z), fb(h.bbox.max.z), fb(h.bbox.min.m), fb(h.bbox.max.m),
                 ]);
                 match req {
-                    -1 => run_rops::<Shape>(&mut reader, &ops, cap, &mut out),
-                    1 => run_rops::<Point>(&mut reader, &ops, cap, &mut out),
-                    21 => run_rops::<PointM>(&mut reader, &ops, cap, &mut out),
-                    11 => run_rops::<PointZ>(&mut reader, &ops, cap, &mut out),
-                    3 => run_rops::<Polyline>(&mut reader, &ops, cap, &mut out),
-                    23 => run_rops::<PolylineM>(&mut reader, &ops, cap, &mut out),
-                    13 => run_rops::<PolylineZ>(&mut reader, &ops, cap, &mut out),
-                    5 => run_rops::<Polygon>(&mut reader, &ops, cap, &mut out),
-                    25 => run_rops::<PolygonM>(&mut reader, &ops, cap, &mut out),
-                    15 => run_rops::<PolygonZ>(&mut reader, &ops, cap, &mut out),
-                    8 => run_rops::<Multipoint>(&mut reader, &ops, cap, &mut out),
-                    28 => run_rops::<MultipointM>(&mut reader, &ops, cap, &mut out),
-                    18 => run_rops::<MultipointZ>(&mut reader, &ops, cap, &mut out),
-                    31 => run_rops::<Multipatch>(&mut reader, &ops, cap, &mut out),
+                    -1 => run_rops::<Shape>(reader, &ops, cap, &mut out),
+                    1 => run_rops::<Point>(reader, &ops, cap, &mut out),
+                    21 => run_rops::<PointM>(reader, &ops, cap, &mut out),
+                    11 => run_rops::<PointZ>(reader, &ops, cap, &mut out),
+                    3 => run_rops::<Polyline>(reader, &ops, cap, &mut out),
+                    23 => run_rops::<PolylineM>(reader, &ops, cap, &mut out),
+                    13 => run_rops::<PolylineZ>(reader, &ops, cap, &mut out),
+                    5 => run_rops::<Polygon>(reader, &ops, cap, &mut out),
+                    25 => run_rops::<PolygonM>(reader, &ops, cap, &mut out),
+                    15 => run_rops::<PolygonZ>(reader, &ops, cap, &mut out),
+                    8 => run_rops::<Multipoint>(reader, &ops, cap, &mut out),
+                    28 => run_rops::<MultipointM>(reader, &ops, cap, &mut out),
+                    18 => run_rops::<MultipointZ>(reader, &ops, cap, &mut out),
+                    31 => run_rops::<Multipatch>(reader, &ops, cap, &mut out),
                     _ => return None,
                 }
             }
@@ -570,6 +606,8 @@ fn case_alloc(c: &mut Cur) -> Result<Vec<W>, BadCase> {
         return Err(BadCase);
     }
     let cap = shp.len() / 12 + shx.len() / 8 + 2;
+    let src2 = Source::new(shp.clone());
+    let idx2 = Source::new(shx.clone());
     let src = Source::new(shp);
     let idx = Source::new(shx);
     let base = LIVE.load(Relaxed);
@@ -593,6 +631,11 @@ fn case_alloc(c: &mut Cur) -> Result<Vec<W>, BadCase> {
                 let a = reader.read_nth_shape(0);
                 let b = reader.read_nth_shape(1);
                 drop((a, b, kept));
+                // the bulk read of a second reader over the same bytes (`read()` sizes its result itself)
+                let reader2 = if has_shx { ShapeReader::with_shx(src2, idx2) } else { ShapeReader::new(src2) };
+                if let Ok(r2) = reader2 {
+                    drop(r2.read());
+                }
                 0
             }
         }
